@@ -45,6 +45,8 @@ def states(draw, max_providers=7):
             if draw(st.integers(0, 9)) < 6 else set()
         aggs = set(draw(st.lists(st.sampled_from(AGGS), max_size=2,
                                  unique=True)))
+        if draw(st.integers(0, 9)) == 9:
+            aggs.add(draw(st.sampled_from(gen.ODD_AGGS)))
         sharing = bool(invs) and draw(st.integers(0, 9)) < 3
         if sharing:
             traits.add(SHARING)
@@ -323,18 +325,18 @@ def _group_filters(draw, w, g, version, hit, provider=None, collective=None,
             g.forbidden.add(draw(st.sampled_from(cand)))
     if version >= 21 and draw(st.integers(0, 9)) < 4:
         src = sorted(pool_aggs) if (hit and pool_aggs) else \
-            gen.AGGS + [gen.GHOST_AGG]
+            gen.AGGS + gen.ODD_AGGS + [gen.GHOST_AGG]
         k = draw(st.integers(1, 2)) if version >= 24 else 1
         for _ in range(k):
             a = draw(st.sampled_from(src))
             if draw(st.integers(0, 2)) == 0:
                 g.member_of.append({a, draw(st.sampled_from(
-                    gen.AGGS + [gen.GHOST_AGG]))})
+                    gen.AGGS + gen.ODD_AGGS + [gen.GHOST_AGG]))})
             else:
                 g.member_of.append({a})
     if version >= 32 and draw(st.integers(0, 9)) < 2:
         avoid = pool_aggs if not collective else bad_aggs
-        cand = [a for a in gen.AGGS + [gen.GHOST_AGG]
+        cand = [a for a in gen.AGGS + gen.ODD_AGGS + [gen.GHOST_AGG]
                 if a not in avoid or not hit]
         if cand:
             g.forbidden_aggs |= set(draw(st.lists(
@@ -574,15 +576,15 @@ def rp_filters(draw, d, version):
             n = draw(st.integers(1, 2)) if version >= 24 else 1
             for _ in range(n):
                 src = sorted(w.aggs[target]) if target and w.aggs[target] \
-                    else gen.AGGS + [gen.GHOST_AGG]
+                    else gen.AGGS + gen.ODD_AGGS + [gen.GHOST_AGG]
                 a = draw(st.sampled_from(src))
                 if draw(st.integers(0, 2)) == 0:
                     f.member_of.append({a, draw(st.sampled_from(
-                        gen.AGGS + [gen.GHOST_AGG]))})
+                        gen.AGGS + gen.ODD_AGGS + [gen.GHOST_AGG]))})
                 else:
                     f.member_of.append({a})
         elif kind == 'forbidden_aggs':
-            cand = [a for a in gen.AGGS + [gen.GHOST_AGG]
+            cand = [a for a in gen.AGGS + gen.ODD_AGGS + [gen.GHOST_AGG]
                     if not target or a not in w.aggs[target]]
             if cand:
                 f.forbidden_aggs |= set(draw(st.lists(
